@@ -678,6 +678,10 @@ fn now_ms() -> u64 {
         .unwrap_or(0)
 }
 
+#[cfg(kani)]
+#[path = "/verif/harness/rip-kernel/lib.rs"]
+mod verif_kani;
+
 #[cfg(test)]
 mod tests {
     use super::*;
